@@ -411,7 +411,8 @@ namespace GeographicLib {
     if (_n == 0)
       drho = fmax(drho, -_drhomax);
     real
-      tnm1 = _t0nm1 + _n * drho/_scale,
+      // Ensure tnm1 >= -1 (it's -1 at the apex)
+      tnm1 = fmax(real(-1), _t0nm1 + _n * drho/_scale),
       dpsi = (den == 0 ? 0 :
               (tnm1 + 1 != 0 ? - Dlog1p(tnm1, _t0nm1) * drho / _scale :
                ahypover_));
